@@ -14,7 +14,14 @@ Operations (JSON, self-contained so that a replay file can be re-run by hand):
   {"op":"new","b":"atlas"|"cms_aod"|"cms_miniaod"}
   {"op":"addx","e":<executor index>,"x":{"docker":"img", ...}}
   {"op":"tr","e":<executor index>,"q":"<python expression with DS for the dataset>","md":[<MetaData dicts, in processing order>]}
-probe: {"b":backend,"on":null|<executor index>,"x":{...},"q":"...","md":[...]}
+      optional "obj":"<label>" — all translations (history and probe) that carry the same label hand the SAME Python
+      AST object to the executor (as a caller does who calls `.value()` on one query object more than once); the first of
+      them parses `q`/`md`, the later ones re-use that object whatever earlier translations did to it
+      optional "inner":{"obj":"<label>","q":"...","md":[...]} — a query DERIVED from another query object (as
+      `q.Where(...)` is from `q`): `q` of the operation mentions the placeholder OBJ, which stands for the AST object with
+      that label (created from the inner q/md if no earlier operation carried the label); the derived AST contains that very
+      object as a sub-tree, it is not a copy.  The operation's own "md" must be empty (the metadata is the inner query's).
+probe: {"b":backend,"on":null|<executor index>,"x":{...},"q":"...","md":[...], optional "obj", optional "inner"}
 """
 from __future__ import annotations
 
@@ -234,6 +241,100 @@ def _collector() -> _Collect:
     return h
 
 
+# ----------------------------------------------------------------------------- the rest of the process state
+# The model's state (HState) is: the method-type registry, the namespace/enum registry, the name counter, the
+# constructor's default dict and the executors' attributes.  Everything ELSE the package keeps at module or class level
+# (the function mapping of cpp_functions, the ranking of arithmetic types in utils, the backends' collection tables,
+# operator tables, mutable default arguments, ... and any table a later version adds) is the "frame": the model says
+# no operation changes it.  It is fingerprinted generically — nothing here names a particular table.
+MODELLED = {
+    "func_adl_xAOD.common.cpp_types.g_method_type_dict",
+    "func_adl_xAOD.common.cpp_types.g_toplevel_ns",
+    "func_adl_xAOD.common.cpp_vars.unique_var_index",
+    "func_adl_xAOD.common.executor.executor.__init__.__defaults__",
+}
+
+
+def _fp(v, depth=0) -> str:
+    import types
+
+    if v is None or isinstance(v, (bool, int, float, str, bytes)):
+        return repr(v)
+    if depth > 6:
+        return "<deep>"
+    if isinstance(v, dict):
+        return "{" + ", ".join(f"{_fp(k, depth + 1)}: {_fp(x, depth + 1)}" for k, x in v.items()) + "}"
+    if isinstance(v, (list, tuple)):
+        return type(v).__name__ + "[" + ", ".join(_fp(x, depth + 1) for x in v) + "]"
+    if isinstance(v, (set, frozenset)):
+        return "set[" + ", ".join(sorted(_fp(x, depth + 1) for x in v)) + "]"
+    if isinstance(v, (types.ModuleType, types.FunctionType, types.BuiltinFunctionType, types.MethodType, type)):
+        return f"<{getattr(v, '__module__', '')}.{getattr(v, '__qualname__', getattr(v, '__name__', ''))}>"
+    cls = type(v)
+    if str(cls.__module__).startswith("func_adl_xAOD") and hasattr(v, "__dict__"):
+        return f"{cls.__qualname__}({_fp(vars(v), depth + 1)})"
+    if dataclasses.is_dataclass(v):
+        return f"{cls.__qualname__}({_fp(dataclasses.asdict(v), depth + 1)})"
+    if isinstance(v, ast.AST):
+        return "ast:" + ast.dump(v)[:200]
+    return f"<{cls.__module__}.{cls.__qualname__}>"
+
+
+def frame_snapshot() -> Dict[str, str]:
+    """path -> fingerprint of every module attribute, class attribute and mutable default argument of the package's
+    modules that is data (not a function/class/module), except the parts the model has"""
+    import types
+
+    snap: Dict[str, str] = {}
+
+    def data(v) -> bool:
+        return not isinstance(v, (types.ModuleType, types.FunctionType, types.BuiltinFunctionType, type, classmethod, staticmethod, property)) and not callable(v)
+
+    def defaults(path, fn):
+        f = getattr(fn, "__func__", fn)
+        if isinstance(f, types.FunctionType):
+            for n, d in enumerate(f.__defaults__ or ()):
+                if isinstance(d, (dict, list, set)):
+                    snap[f"{path}.__defaults__[{n}]"] = _fp(d)
+            for k, d in (f.__kwdefaults__ or {}).items():
+                if isinstance(d, (dict, list, set)):
+                    snap[f"{path}.__kwdefaults__[{k}]"] = _fp(d)
+
+    for name, mod in sorted(sys.modules.items()):
+        if mod is None or not (name == "func_adl_xAOD" or name.startswith("func_adl_xAOD.")):
+            continue
+        for k, v in sorted(vars(mod).items()):
+            path = f"{name}.{k}"
+            if (k.startswith("__") and k.endswith("__")) or k.startswith("_c07_") or path in MODELLED:
+                continue
+            if isinstance(v, type):
+                if getattr(v, "__module__", None) != name:
+                    continue
+                for ck, cv in sorted(vars(v).items()):
+                    cpath = f"{path}.{ck}"
+                    if ck.startswith("__") and ck.endswith("__") and ck != "__init__":
+                        continue
+                    if isinstance(cv, (types.FunctionType, classmethod, staticmethod)):
+                        if f"{cpath}.__defaults__" not in MODELLED:
+                            defaults(cpath, cv)
+                    elif data(cv) and not ck.startswith("_abc_"):
+                        snap[cpath] = _fp(cv)
+            elif isinstance(v, types.FunctionType):
+                if getattr(v, "__module__", None) == name:
+                    defaults(path, v)
+            elif data(v) and "typing" not in type(v).__module__ and type(v).__name__ != "_Feature":
+                snap[path] = _fp(v)
+    return snap
+
+
+def frame_diff(base: Dict[str, str], now: Dict[str, str]) -> List[List[str]]:
+    out = []
+    for k in sorted(set(base) | set(now)):
+        if base.get(k) != now.get(k):
+            out.append([k, (base.get(k) or "<absent>")[:300], (now.get(k) or "<absent>")[:300]])
+    return out
+
+
 class Process:
     """One interpreter's worth of func_adl_xAOD state (the module globals are THE process state: there is
     one `Process` per interpreter, creating a second one does not give a second state)."""
@@ -253,9 +354,11 @@ class Process:
         self.backend_of: List[str] = []
         self._rec_keys: Optional[List] = None
         self._rec_names: Optional[List] = None
+        self.asts: Dict[str, ast.AST] = {}  # label -> the one AST object of the translations that carry that label
         # importing the package already draws names (a class attribute of the miniAOD backend): count from here
         self.counter_base = cvars.unique_var_index
         self._instrument()
+        self.frame0 = frame_snapshot()
 
     # -- footprint recording
     def _instrument(self):
@@ -293,9 +396,26 @@ class Process:
         self.execs[e].add_extended_md({k: make_proto(k, v) for k, v in x.items()})
         return {"kind": "addx"}
 
-    def tr(self, e: int, q: str, md: List[Dict[str, Any]], keep_files: bool = False) -> Dict[str, Any]:
+    def the_ast(self, q: str, md: List[Dict[str, Any]], obj: Optional[str], inner: Optional[Dict[str, Any]]) -> ast.AST:
+        if obj is not None and obj in self.asts:
+            return self.asts[obj]
+        if inner is not None:
+            sub = self.the_ast(inner["q"], inner["md"], inner.get("obj"), None)
+
+            class _Put(ast.NodeTransformer):
+                def visit_Name(self, node):
+                    return sub if node.id == "OBJ" else node
+
+            a = _Put().visit(ast.parse(q, mode="eval").body)
+        else:
+            a = build_ast(q, md)
+        if obj is not None:
+            self.asts[obj] = a
+        return a
+
+    def tr(self, e: int, q: str, md: List[Dict[str, Any]], keep_files: bool = False, obj: Optional[str] = None, inner: Optional[Dict[str, Any]] = None) -> Dict[str, Any]:
         exe = self.execs[e]
-        a = build_ast(q, md)
+        a = self.the_ast(q, md, obj, inner)
         c0 = self.cvars.unique_var_index
         self._rec_keys, self._rec_names = [], []
         self.log.lines = []
@@ -342,7 +462,7 @@ class Process:
             e = p["on"]
         if p.get("x"):
             self.addx(e, p["x"])
-        r = self.tr(e, p["q"], p["md"])
+        r = self.tr(e, p["q"], p["md"], obj=p.get("obj"), inner=p.get("inner"))
         r["found"] = sorted(found_render(k, it) for k in p.get("x", {}) for it in self.execs[e].extended_md(k))
         r["executor"] = e
         return r
@@ -353,7 +473,7 @@ class Process:
         if op["op"] == "addx":
             return self.addx(op["e"], op["x"])
         if op["op"] == "tr":
-            return self.tr(op["e"], op["q"], op["md"])
+            return self.tr(op["e"], op["q"], op["md"], obj=op.get("obj"), inner=op.get("inner"))
         raise ValueError(op)
 
     # -- observation of the state
@@ -400,6 +520,8 @@ class Process:
             "shared_xmd": sorted([k, proto_render(k, v)] for k, v in (shared or {}).items()),
             "execs": execs,
             "counter": self.cvars.unique_var_index - self.counter_base,
+            # what changed in the rest of the process state since this Process was created: [path, before, now]
+            "frame": frame_diff(self.frame0, frame_snapshot()),
         }
 
 
